@@ -24,7 +24,7 @@ type Batch struct {
 }
 
 // Build generates, writes and compiles the batch; on a compile failure it returns the compiler output.
-func (b *Batch) Build() (string, error) {
+func (b *Batch) Build(extra ...string) (string, error) {
 	m := &Module{Dir: b.Dir, Files: map[string]string{}}
 	for n, s := range b.Files {
 		m.Files[n] = s
@@ -41,7 +41,7 @@ func (b *Batch) Build() (string, error) {
 		return "", err
 	}
 	b.bin = filepath.Join(b.Dir, "batchbin")
-	return m.Build(".", b.bin)
+	return m.Build(".", b.bin, extra...)
 }
 
 // Run executes the jobs and returns the results in order. If the process dies (fatal error, stack
